@@ -350,9 +350,9 @@ int main(int argc, char **argv) {
                 // ddmin over the predecessors
                 std::vector<Plan> best = g_prefix;
                 size_t chunk = std::max<size_t>(1, best.size() / 2);
-                while (chunk >= 1 && elapsed() < 90) {
+                while (chunk >= 1 && elapsed() < 40) {
                     bool removed = false;
-                    for (size_t st = 0; st < best.size() && elapsed() < 90;) {
+                    for (size_t st = 0; st < best.size() && elapsed() < 40;) {
                         std::vector<Plan> cand = best; size_t en = std::min(best.size(), st + chunk);
                         cand.erase(cand.begin() + st, cand.begin() + en);
                         if (holds_with(cand)) { best = cand; removed = true; } else st += chunk;
@@ -363,7 +363,7 @@ int main(int argc, char **argv) {
                 }
                 g_prefix = best;
                 // ... and over the operations of each predecessor that is left (at most eight of them)
-                for (size_t k = 0; k < g_prefix.size() && k < 8 && elapsed() < 150; k++) {
+                for (size_t k = 0; k < g_prefix.size() && k < 4 && elapsed() < 70; k++) {
                     Plan orig = g_prefix[k];
                     g_prefix[k] = shrink(orig, [&](const Plan &cand) { Plan keep = g_prefix[k]; g_prefix[k] = cand; Outcome o = run_forked(p); g_prefix[k] = keep; return o.violated && o.cls == a.cls; }, tries);
                     Outcome chk = run_forked(p); if (!chk.violated || chk.cls != a.cls) g_prefix[k] = orig;
